@@ -1,6 +1,9 @@
 #!/venv/bin/python
 """Evaluate patch files in memory (overlay on /repo's current source; /repo is not touched): which rules report NEW
 violations or analysis errors.  usage: preview_patch.py <patch.diff>..."""
+import os as _os, sys as _sys
+if _sys.version_info[:2] != (3, 12) and _os.path.exists("/venv/bin/python"):
+    _os.execv("/venv/bin/python", ["/venv/bin/python"] + _sys.argv)      # same interpreter as ./check (ast.unparse differs between versions)
 import os, sys
 sys.path.insert(0, "/verif")
 os.environ.setdefault("VERIF_NO_EVIDENCE", "1")
